@@ -347,7 +347,7 @@ def check_cutoff(tier, pid):
                                             "C05_sequential_anytime_bounds_sound_NoDupFringe", "C05_holds_on_table_family_NoDupFringe",
                                             "C05_parallel_anytime_bounds_sound", "C05_parallel_bounds_sound_in_every_reachable_state",
                                             "C05_parallel_holds_on_table_family", "C05_parallel_example_three_aborts",
-                                            "C05_parallel_regression_max_sentinel"])
+                                            "C05_parallel_regression_max_sentinel", "C05_parallel_anytime_bounds_sound_NoDupFringe"])
     if pid == "C19": sc.proofs("C19+C19u", ["C19_cutoff_monotone", "C19_cutoff_monotone_any_later_point", "C19_eventually_the_uninterrupted_run",
                                        "C19_compile_prefix_determinism", "C19_bounds_monotone_in_cutoff", "C19_bounds_monotone_any_later_cutoff",
                                        "C19_large_cutoff_is_uninterrupted_run", "C19_bounds_monotone_in_cutoff_NoDupFringe",
@@ -431,7 +431,7 @@ def check_cutoff(tier, pid):
             "C19": "All consecutive cutoff indices of each run: lower bound non-decreasing, upper bound non-increasing in k, exact with both bounds at the optimum "
                    "after the last poll; Coq solver model compared at every k. Theorems: Assembly.C19_monotone(_gen), C19_eventually_full (via SolverCutoff.compile_agree)."}[pid]
     return sc.finish(RULE + "; cutoff firing at every poll index of the uninterrupted run", expl,
-                     ["cache / dominance / pooled configurations (sequential and parallel), NoDupFringe in the parallel protocol: correspondence + oracle only"] if pid == "C05"
+                     ["cache / dominance / pooled configurations (sequential and parallel): correspondence + oracle only"] if pid == "C05"
                      else ["cache / dominance / pooled configurations: correspondence + oracle only"])
 
 
